@@ -70,13 +70,8 @@ where
         },
         (Out::Err(e), Ok(w)) => Some(Fail::tagged("legal-spelling-refused", e.clone(), format!("{s:?} is a legal spelling of {w:?} but the parser answers Err({e})"))),
         (Out::Ok(snap), Err(e)) => Some(Fail::tagged("typed-accepted", e, format!("{s:?}: the typed PURL must answer {e} but accepted it as {snap:?}"))),
-        (Out::Err(got), Err(e)) => {
-            if got == e {
-                None
-            } else {
-                Some(Fail::tagged("typed-wrong-error", format!("{got} for {e}"), format!("{s:?}: the typed PURL must answer {e} but answered {got}")))
-            }
-        },
+        // refused, as it must be; the error variant belongs to C05
+        (Out::Err(_), Err(_)) => None,
     }
 }
 
